@@ -569,6 +569,17 @@ def run(ctx):
     accessors.require_supported(ast)
     if len(kx) < 3:
         raise Broken("C16-R1: key extractor obligations not found (%d)" % len(kx))
+    # 'holding the latest packet': the entries receive the packet through Packet's copy operations (DeviceStatus / InterfaceStatus assign
+    # it, the vectors copy and move it), so an entry holds the latest message only if those copy every member on every path (C14-R1/R2/R6)
+    from rules import c14
+    k14 = 0
+    for o in c14.run(ctx).obligations:
+        if o["rule"] in ("C14-R1", "C14-R2", "C14-R6") and (o["key"].startswith(("Packet::operator=", "Packet(const Packet&)", "swap(Packet&,Packet&)", "Packet:")) or
+                                                              o["key"].startswith("ASAM::CMP::Packet::")):
+            res.check(o["ok"], "C16-R4", "stored-by-value:" + o["key"], o["loc"], o["detail"], o["detail"])
+            k14 += 1
+    if k14 < 6:
+        raise Broken("C16-R4: Packet copy obligations of C14 not found (%d)" % k14)
     res.floor("C16-R1", 7)
     res.floor("C16-R2", 5)
     res.floor("C16-R3", 3)
